@@ -134,6 +134,7 @@ type State struct {
 	pages              []*Term // prefixes of the stores handed to query.Paginate
 	notes              []string
 	loopSeen           map[*ssa.BasicBlock]int
+	curLoop            *ssa.BasicBlock // header of the innermost loop whose body is being executed
 	depth              int
 }
 
@@ -142,7 +143,7 @@ func (s *State) clone() *State {
 		cells: make(map[int]Value, len(s.cells)), heap: make(map[int]*Term, len(s.heap)),
 		abs: make(map[string]*Term, len(s.abs)), cnt: make(map[string]*Term, len(s.cnt)),
 		rawHas: s.rawHas, rawVal: s.rawVal, ext: s.ext, emitN: s.emitN, callN: s.callN,
-		evTaint: s.evTaint, callTaint: s.callTaint, depth: s.depth,
+		evTaint: s.evTaint, callTaint: s.callTaint, depth: s.depth, curLoop: s.curLoop,
 	}
 	for k, v := range s.cells {
 		n.cells[k] = v
